@@ -34,6 +34,10 @@ def loptl(x) -> str:
     return "none" if x is None else f"(some {lints(x)})"
 
 
+def lcast(c) -> str:
+    return "none" if c.get("cast") is None else f"(some {c['cast']})"
+
+
 def lil(a) -> str:
     if isinstance(a, int):
         return f"(OV.C08.IntOrList.int {li(a)})"
@@ -121,11 +125,11 @@ def lean_term_expr(name: str, c: dict) -> str | None:
     if name == "cat":
         return f"{P}cat.term ([{', '.join(lshape(s) for s in c['shapes'])}] : List (List Nat)) {li(c['dim'])}"
     if name == "sum":
-        return f"{P}sum.term {r}"
+        return f"{P}sum.term {r} {lcast(c)}"
     if name == "sum_dim":
-        return f"{P}sum_dim.term {r} {loptl(c['dims'])} {lb(c['keep'])}"
+        return f"{P}sum_dim.term {r} {loptl(c['dims'])} {lb(c['keep'])} {lcast(c)}"
     if name == "mean_dim":
-        return f"{P}mean_dim.term {r} {lints(c['dims'])} {lb(c['keep'])}"
+        return f"{P}mean_dim.term {r} {lints(c['dims'])} {lb(c['keep'])} {lcast(c)}"
     if name in ("amax", "amin"):
         return f'{P}amax.term "aten_{name}" {lints(c["dims"])} {lb(c["keep"])}'
     if name in ("all", "any"):
@@ -137,9 +141,9 @@ def lean_term_expr(name: str, c: dict) -> str | None:
     if name in ("argmax", "argmin"):
         return f'{P}argmax.term "{"ArgMax" if name == "argmax" else "ArgMin"}" {r} {lopt(c["dim"])} {lb(c["keep"])}'
     if name == "prod":
-        return f"{P}prod.term {lb(c['dtype'] in ('i64', 'i32', 'u8'))}"
+        return f"{P}prod.term {lb(c['dtype'] in ('i64', 'i32', 'u8'))} {lcast(c)}"
     if name == "prod_dim":
-        return f"{P}prod_dim.term {r} {li(c['dim'])} {lb(c['keep'])}"
+        return f"{P}prod_dim.term {r} {li(c['dim'])} {lb(c['keep'])} {lcast(c)}"
     if name == "cumsum":
         cast = "none" if c.get("cast") is None else f"(some {c['cast']})"
         return f"{P}cumsum.term {r} {li(c['dim'])} {cast}"
